@@ -623,6 +623,47 @@ func runWorld(t *testing.T, r *vh.Run, x *world, worldNo int, budget int) int {
 		}
 	}
 
+	// ---- corpus: RemoveNode of an EMPTY node (the only remove-node that gets past the checks and reaches the
+	// removal itself, under the pod lock), in every world ----------------------
+	{
+		_, _, _, nodeOf := x.storeTerm()
+		busy := map[string]bool{}
+		for _, n := range nodeOf {
+			busy[n] = true
+		}
+		empty := ""
+		ns, _ := x.w.RawStore.GetNodesByPod(ctx, &types.NodeFilter{All: true})
+		for _, n := range ns {
+			if !busy[n.Name] && empty == "" {
+				empty = n.Name
+			}
+		}
+		if empty == "" {
+			empty = "n9"
+			p := pick(rng, x.pods)
+			if e := x.w.AddNode(empty, p, 8, 1<<30); e == nil {
+				x.podOf[empty] = p
+			} else {
+				empty = ""
+			}
+		}
+		if empty != "" {
+			n := empty
+			x.run(t, r, "remove-node", "", map[string]any{"corpus": "remove-empty-node"}, func() (string, []string, map[string]any) {
+				err := c.RemoveNode(ctx, n)
+				if err == nil {
+					r.Count("remove-node:removed_empty_node")
+					p := pick(rng, x.pods)
+					if e := x.w.AddNode(n, p, 8, 1<<30); e == nil {
+						x.podOf[n] = p
+					}
+				}
+				return fmt.Sprintf("(ORemoveNode %s)", vh.Str(n)), nil, map[string]any{"node": n, "err": fmt.Sprint(err)}
+			})
+			count++
+		}
+	}
+
 	// ---- random operations ---------------------------------------------------
 	kinds := []string{"create", "create", "capacity", "remove-pod", "remove", "dissociate", "realloc", "replace",
 		"control", "send", "raw-engine", "set-node", "remove-node", "node-resource", "pod-resource", "remap",
@@ -898,9 +939,26 @@ func runWorld(t *testing.T, r *vh.Run, x *world, worldNo int, budget int) int {
 					fk = "plock_" + p
 				}
 			}
+			// prefer nodes without workloads: only those are really removed
+			if rng(3) != 0 {
+				busy := map[string]bool{}
+				for _, nn := range nodeOf {
+					busy[nn] = true
+				}
+				for _, nn := range liveNodes {
+					if !busy[nn] {
+						n = nn
+						if _, ok := x.podOf[n]; ok && failing {
+							fk = "plock_" + x.podOf[n]
+						}
+						break
+					}
+				}
+			}
 			x.run(t, r, kind, fk, nil, func() (string, []string, map[string]any) {
 				err := c.RemoveNode(ctx, n)
 				if err == nil {
+					r.Count("remove-node:removed_empty_node")
 					// put it back (possibly into another pod) so that the world stays populated
 					p := pick(rng, x.pods)
 					if e := x.w.AddNode(n, p, 8, 1<<30); e == nil {
